@@ -272,6 +272,9 @@ def run(ctx):
                     v = "".join(chr(rng.randrange(256)) for _ in range(rng.randrange(0, 65)))
                 else:
                     v = "".join(rng.choice(TOKEN) for _ in range(rng.randrange(0, 20)))
+                if rng.random() < 0.02:
+                    # long values (cookies may be some kilobytes): hundreds of characters that need escaping
+                    v = rng.choice([";", ",", "\\", '"', "\xe9", " ", "\x01", ";\\"]) * rng.choice([33, 64, 65, 66, 130, 400]) + rng.choice(["", "x"])
                 name = gen_name(rng, j)
                 while any(name == n0 for n0, _ in cookies):
                     name = gen_name(rng, j)
@@ -291,7 +294,7 @@ def run(ctx):
                 roundtrip(ctx, rng, list(cookies))
                 ctx.case(("case-variants", repr(cookies)))
         # ---------- expiry under time zones
-        combos = [(e, m) for e in (None, 0, 1, 59, 3600, 86400 * 400, -3600) for m in (-1, 0, 1, 10 ** 9)]
+        combos = [(e, m) for e in (None, 0, 1, 59, 3600, 86400 * 400, -3600, 86400 * 365 * 10 + 1, 86400 * 365 * 20, 2 ** 31 - 1) for m in (-1, 0, 1, 10 ** 9)]  # (lifetimes, however long: seconds from now)
         zi = 0
         for zone in ZONES:
             zi += 1
